@@ -42,6 +42,7 @@ type vC14BfFake struct {
 	closeLat time.Duration
 	closes   atomic.Int64
 	calls    atomic.Int64
+	queued   atomic.Int64 // calls of the three operations that only the worker hands over (Clear and RefreshSchedule are pass-through)
 	closed   atomic.Bool
 	afterCl  atomic.Int64 // calls that started after the fake's Close returned
 }
@@ -51,6 +52,9 @@ func (f *vC14BfFake) call(name string) {
 		f.afterCl.Add(1)
 	}
 	f.calls.Add(1)
+	if name != "Clear" && name != "RefreshSchedule" {
+		f.queued.Add(1)
+	}
 	f.bd.Tick("inner", name)
 	time.Sleep(f.lat)
 	f.bd.Tick("innerend", name)
@@ -233,7 +237,7 @@ func vC14BfRunInBubble(t *testing.T, c *vh.Case, sc vC14BfScn, target int) *vC14
 	took, cerr := doClose("Close")
 	closeReturned.Store(true)
 	res.CloseTook = took
-	callsAtClose := fake.calls.Load()
+	callsAtClose := fake.queued.Load()
 	c.Check(took <= vC14BfCloseBound, "close-returns-in-bound", "%sClose took %v (bound %v), returned %v (%s; closed at event #%d %q)", tag, took, vC14BfCloseBound, cerr, sc, res.CloseIdx, res.CloseLabel)
 	c.Check(fake.closes.Load() == 1, "inner-closed-once", "%sthe wrapped provider's Close was called %d times by the first Close", tag, fake.closes.Load())
 	synctest.Wait()
@@ -263,8 +267,10 @@ func vC14BfRunInBubble(t *testing.T, c *vh.Case, sc vC14BfScn, target int) *vC14
 	if !c.Check(len(cB) == 0, "no-goroutine-after-2min", "%sgoroutines 2 virtual minutes after Close: %v\n%s", tag, vc14.Summary(cB), vc14.Dump(cB, 3)) {
 		c.ExitNow()
 	}
-	// the worker is gone: nothing is handed to the wrapped provider any more (pass-through calls excluded above)
-	c.Check(fake.calls.Load() == callsAtClose, "no-inner-call-after-close", "%s%d calls reached the wrapped provider after Close returned", tag, fake.calls.Load()-callsAtClose)
+	// the worker is gone: no queued operation is handed to the wrapped provider any more. Only the three operations
+	// that go through the queue are counted: a pass-through Clear/RefreshSchedule that a client started just before
+	// Close returned may reach the wrapped provider afterwards, which is the client's call, not the worker's.
+	c.Check(fake.queued.Load() == callsAtClose, "no-inner-call-after-close", "%s%d queued operations reached the wrapped provider after Close returned", tag, fake.queued.Load()-callsAtClose)
 	// Observed, not judged: Close closes the wrapped provider before it waits for the worker (the doc comment says the
 	// opposite order), so a batch in flight is handed to an already closed provider (ErrClosed, operations dropped).
 	c.Obs("inner_calls_after_inner_close", int(fake.afterCl.Load()))
